@@ -30,12 +30,18 @@ func CheckConstructor(
 	filesToCheck := config.FilterFiles(pass)
 
 	for file := range filesToCheck {
+		// The enclosing function is scoped to one function declaration:
+		// package-level declarations after it are in no function at all.
 		currentFunction := ""
+		funcEnd := token.NoPos
 
 		ast.Inspect(file, func(n ast.Node) bool {
+			if n != nil && funcEnd.IsValid() && n.Pos() >= funcEnd {
+				currentFunction, funcEnd = "", token.NoPos
+			}
 			switch node := n.(type) {
 			case *ast.FuncDecl:
-				currentFunction = node.Name.Name
+				currentFunction, funcEnd = node.Name.Name, node.End()
 				return true
 
 			case *ast.CompositeLit:
